@@ -435,6 +435,11 @@ def run_deadline_in_outage(job):
     return (None, len([r for r in w.console.requests if r[2] == "req-zone-status"]))
 
 
+def replay_input(rp):
+    sig, msg = run_deadline_in_outage(tuple(rp["deadline_in_outage"]))
+    return msg if sig else None
+
+
 def run(tier, seed, part=None):
     chk = runner.Check("C14", tier, seed, "model_checking")
     chk.trusted_base = ["pvmc.console.SimConsole / pvmc.ref", "pvmc.pubmodel", "pvmc.vloop, pvmc.simnet"]
